@@ -4,7 +4,8 @@ LEVEL = "exploration"
 RULE = (
     "full tokamak grids over wall shapes (box, slanted, polygons, clockwise/anticlockwise input, via geqdsk), "
     "topologies, guard counts and both modes; target points, inside/outside classification and penalty_mask are "
-    "recomputed in exact rational arithmetic (winding number, exact crossing); distinct = distinct case specs"
+    "recomputed in exact rational arithmetic (winding number, exact crossing); plus a unit drive of the real "
+    "_find_intersection on straight flux surfaces crossing a toothed wall several times; distinct = distinct case specs / scenarios"
 )
 ASSUMPTIONS = ["faces within 1e-5 m of the wall may be classified either way (a target point lies on the wall only to FineContour accuracy)"]
 
@@ -17,9 +18,14 @@ def plan(tier, seed):
 
 
 def _plan(tier, seed):
-    return grid_plan(tier, seed, "C11", filt=lambda s: s.get("kind", "tok") == "tok")
+    p = grid_plan(tier, seed, "C11", filt=lambda s: s.get("kind", "tok") == "tok")
+    # the real _find_intersection on straight flux surfaces that cross a toothed wall 1..5 times
+    ntr, shards = (60, 1) if tier == "quick" else (1200, 4)
+    p.setdefault("jobs", [])
+    p["jobs"] += [{"name": "c11-unit-%d" % k, "module": "vmon.jobs.c11_unit", "args": {"seed": 1000 * seed + k, "trials": ntr // shards}, "timeout": 900} for k in range(shards)]
+    return p
 
 
 def required(tier, classes, records):
-    pats = [("box wall", r"wall:box"), ("slanted wall", r"wall:slant"), ("polygon wall", r"wall:poly"), ("clockwise input", r"-cw"), ("orthogonal", r"\|orth\|"), ("non-orthogonal", r"\|nonorth\|"), ("no guards", r"\|g0\|"), ("non-orthogonal without guard cells (contours must be extended to reach the wall)", r"\|nonorth\|.*\|g0\|"), ("guards", r"\|g[1-9]\|"), ("double null", r"^(cdn|ldn|udn)"), ("wall that is not star-shaped from the centre of the psi box, with cells behind it", r"\|hidden-faces$")]
+    pats = [("box wall", r"wall:box"), ("slanted wall", r"wall:slant"), ("polygon wall", r"wall:poly"), ("clockwise input", r"-cw"), ("orthogonal", r"\|orth\|"), ("non-orthogonal", r"\|nonorth\|"), ("no guards", r"\|g0\|"), ("non-orthogonal without guard cells (contours must be extended to reach the wall)", r"\|nonorth\|.*\|g0\|"), ("guards", r"\|g[1-9]\|"), ("double null", r"^(cdn|ldn|udn)"), ("wall that is not star-shaped from the centre of the psi box, with cells behind it", r"\|hidden-faces$"), ("flux surface crossing the lower wall several times", r"^lower wall, 2 teeth$"), ("flux surface crossing the upper wall several times", r"^upper wall, [12] teeth$")]
     return need_classes(classes, pats)
